@@ -44,19 +44,28 @@ def judge : Judge := fun pre op obs =>
   if !obs.complete then [] else
   let txt := SwV.Spec.C18.opText op
   let name := SwV.Spec.C18.opName op
+  -- a rename onto an ANCESTOR of the source is its own call-site family for plain entries (the images overlap the
+  -- source subtree: colliding names are overwritten with stale listed copies)
+  let nameP := match op with
+    | .rename src dst => if src != dst && SwV.Spec.C18.under dst src then "rename-onto-ancestor" else "rename"
+    | _ => name
   let rp := refsPre pre
   let rq := refsPost obs
   let emitted := obs.q ++ obs.d
   -- gc_safe: nothing handed to a deletion sink is still referenced afterwards
   let unsafeCs := emitted.filter fun c => exclusive rp c && referenced rq c
   let safe := unsafeCs.map fun c =>
-    (name ++ (if viaLink rq c then "/deletes-chunk-of-live-hardlink" else "/deletes-chunk-of-live-entry"), s!"{txt} chunk={c}")
+    -- who still shows it: a name of a link identity; a plain copy of a name that lost its identity in this very
+    -- operation (the chunk belonged to an identity before); or a plain entry
+    ((if viaLink rq c then name ++ "/deletes-chunk-of-live-hardlink"
+      else if viaLink rp c then name ++ "/deletes-chunk-of-copy-that-lost-its-link"
+      else nameP ++ "/deletes-chunk-of-live-entry"), s!"{txt} chunk={c}")
   -- gc_complete: what stopped being referenced by an operation that asked for data deletion is handed to a sink
   let dropped := if obs.res == .ok && requestsDeletion pre op then
       (rp.flatMap (·.chunks)).eraseDups.filter fun c => !referenced rq c && !emitted.contains c
     else []
   let complete := dropped.map fun c =>
-    (name ++ (if viaLink rp c then "/chunk-of-removed-hardlink-not-deleted" else "/unreferenced-chunk-not-deleted"), s!"{txt} chunk={c}")
+    ((if viaLink rp c then name ++ "/chunk-of-removed-hardlink-not-deleted" else nameP ++ "/unreferenced-chunk-not-deleted"), s!"{txt} chunk={c}")
   safe ++ complete
 
 end SwV.Spec.C20
